@@ -188,6 +188,8 @@ def install():
                 ex = 1 if getattr(self, exited_attr).is_set() else 0
                 _log_obj(self, ("s", "r"), lambda r: (E_TASK_END, r[2], kind, ex))
 
+        body.__qualname__ = f"{cls.__name__}.{name}"
+
         @functools.wraps(orig)
         def wrapper(self, *a, **k):
             c = body(self, orig(self, *a, **k))
@@ -213,6 +215,8 @@ def install():
         finally:
             _log_obj(self, ("d",), lambda r: (E_PUMP_END, r[2], how))
 
+    pump_body.__qualname__ = "RTCDtlsTransport.__run"
+
     def run_wrapper(self):
         c = pump_body(self, orig_run(self))
         _CORO_TAGS[id(c)] = (self, K_PUMP)
@@ -226,6 +230,8 @@ def install():
             return await coro
         finally:
             _log_obj(self, ("i",), lambda r: (E_MON_END, r[2]))
+
+    mon_body.__qualname__ = "RTCIceTransport._monitor"
 
     def monitor_wrapper(self):
         c = mon_body(self, orig_monitor(self))
@@ -678,9 +684,16 @@ async def _scenario(case, loop, run):
         if "bye" in saved:
             rtcrtpsender.RtcpByePacket = saved.pop("bye")
 
+    close_exc = [[], []]
+
     def start_close(p):
         async def timed():
-            await pcs[p].close()
+            try:
+                await pcs[p].close()
+            except asyncio.CancelledError:
+                raise
+            except Exception as exc:        # close() must not raise
+                close_exc[p].append(repr(exc))
             if ret_time[p] is None:
                 ret_time[p] = time.monotonic()
         close_tasks[p].append(asyncio.ensure_future(timed()))
@@ -705,6 +718,8 @@ async def _scenario(case, loop, run):
             await asyncio.sleep(0.3)
         if k == 0:
             fire()
+            # let the close() calls run up to their first suspension before the next negotiation call
+            await asyncio.sleep(0)
         else:
             loop.arm(k, fire)
 
@@ -826,6 +841,7 @@ async def _scenario(case, loop, run):
             sum(1 for ch in run.channels[p] if ch.readyState != "closed"),
             sum(1 for t in tracks[p] if t.readyState != "ended"),
             len(run.events_after[p]),
+            len(close_exc[p]),
         ])
     for t in local_tracks:
         t.stop()
@@ -837,7 +853,7 @@ async def _scenario(case, loop, run):
     skip = [1 if (run.rebundle[p] or (run.ext_stopped[p] & _referenced(run, p)) or
                   (run.ntrx_at_close[p] is not None and
                    run.ntrx_at_close[p] != len(pcs[p].getTransceivers()))) else 0 for p in (0, 1)]
-    detail = {"left": left_names, "threads": threads, "events_after": run.events_after, "nego": nego_info,
+    detail = {"close_exc": close_exc, "left": left_names, "threads": threads, "events_after": run.events_after, "nego": nego_info,
               "states": [[pc.signalingState, pc.iceConnectionState, pc.connectionState] for pc in pcs]}
     return {
         "status": status, "late": late, "obs": obs, "tasks_left": len(left), "threads_left": len(threads),
@@ -1043,10 +1059,12 @@ class C19(Check):
             return ("close-timeout", f"close() did not return within {CLOSE_TIMEOUT}s in two consecutive runs "
                                      f"(pending: {det.get('left')})")
         for p, o in enumerate(obs):
-            called, returned, second, sig, ice, conn, chans, live, after = o
+            called, returned, second, sig, ice, conn, chans, live, after, raised = o
             side = ["offerer", "answerer"][p]
             if not called:
                 continue
+            if raised:
+                return ("close-raised", f"close() on the {side} raised {det.get('close_exc', [[], []])[p]}")
             if not returned:
                 return ("close-timeout", f"close() on the {side} did not return")
             if not second:
